@@ -41,11 +41,13 @@ def history_shards(tier, fn, all_scheds=False):
             if k == 3:
                 scheds = [1, 2, 4, 5, 7]
         else:
-            scheds = [0, full]
+            scheds = [0, full] + ([1] if k >= 2 else [])      # 1 = a lookup before the first edit only: later edits accumulate
         for ops in seqs:
             for sched in scheds:
                 for nb in nbs:
                     if k >= 2 and nb != nbs[0] and sched in (0, 2, 4, 5):
+                        continue
+                    if k >= 2 and not all_scheds and sched == 1 and nb != nbs[-1]:
                         continue
                     out.append({"fn": fn, "consts": {"ops": ops, "sched": sched, "nb": nb, "b2": 1 if k == 3 else 0,
                                                      "addr": "sym" if k == 1 else "fixed"},
